@@ -209,6 +209,17 @@ thread_local! {
     pub static THREAD_IX: std::cell::Cell<u16> = std::cell::Cell::new(0);
 }
 
+pub struct OwnerScope<'a> {
+    w: &'a World,
+    prev: i32,
+}
+
+impl<'a> Drop for OwnerScope<'a> {
+    fn drop(&mut self) {
+        self.w.lock().owner = self.prev;
+    }
+}
+
 pub struct Frame<'a> {
     w: &'a World,
     ev: EvId,
@@ -304,6 +315,19 @@ impl World {
 
     pub fn set_owner(&self, owner: i32) {
         self.lock().owner = owner;
+    }
+
+    /// Attribute everything created until the guard is dropped (upstream subscriptions, taps,
+    /// iterator clones) to output subscription `owner`: ownership follows the causal chain - the
+    /// probe that acts, the upstream subscription that emits - not the env step, because one
+    /// consumer may make another one act from inside its handlers.
+    pub fn owner_scope(&self, owner: i32) -> OwnerScope<'_> {
+        let mut g = self.lock();
+        let prev = g.owner;
+        if owner >= 0 {
+            g.owner = owner;
+        }
+        OwnerScope { w: self, prev }
     }
 
     /// Log the entry of a message into an observation point and run the edge monitors.
